@@ -3,6 +3,33 @@
 import json, sys
 
 CHECKS = {
+ "C02": ("proptest-driven generation, differential against a reference interpreter of the documented semantics (multiset of reports, examined payload nodes)",
+         "Every generated (type, payload) is interpreted independently of deserr; the multiset of reports (kind, location, structured content) under an always-Continue error type must match, and every node the interpreter says must be examined was examined. Types include ~40 random derive inputs per seed.",
+         "Only as good as the interpreter (DESIGN.md Appendix A, transcribed from docs and property statements); free-text messages matched by containment.", "DESIGN.md §6 C02"),
+ "C05": ("exhaustive enumeration of integers x 30 scalar targets x 2 sources + proptest-driven random scalars; differential against independent i128/u128 arithmetic and exact-decimal float conversion",
+         "All integers in [-70000,70000] and all 2^k (+-1) boundaries are enumerated for every scalar target through both sources (exhaustive for that range); random u64/i64/floats/strings sampled.",
+         "Float reference = std's correctly rounded parser on the exact decimal expansion; messages matched by containment of number and bound.", "DESIGN.md §6 C05"),
+ "C06": ("proptest-driven generation over the container cross product, differential against the reference interpreter restricted to structure (order, arity, None-iff-null, set/map semantics, key parsing)",
+         "Container shapes x element types x lengths 0..6 incl. arity+-1, duplicate elements, colliding/unparsable keys; value and arity/key reports compared with the interpreter.",
+         "Key parsing reference is std's FromStr; colliding keys compare success/failure only.", "DESIGN.md §6 C06"),
+ "C07": ("random derive-input generator (programs) x alias-key payload generator; differential against the harness' own effective-key rule",
+         "Random derive inputs (rename / rename_all at container and variant level, skip/default/from in any declaration order) with payloads holding well-typed values under non-effective aliases; value, reports and consumed nodes compared.",
+         "Identifier shapes restricted so that camelCase has one reading; effective keys computed by dv_gen, never by deserr.", "DESIGN.md §6 C07"),
+ "C08": ("random derive-input generator x delete/null/corrupt subset payload generator; differential against the reference interpreter restricted to missing/default/skip",
+         "Random types mixing default / default = expr / skip / missing_field_error / map / Option; random subsets of keys deleted, nulled or corrupted at every struct site.",
+         "As C07.", "DESIGN.md §6 C08"),
+ "C09": ("random derive-input generator x extra-key payload generator; differential (deny) and metamorphic (no deny: outcome invariant under adding/removing unknown keys)",
+         "Extra keys incl. near-misses, skipped-field names and tag look-alikes at every struct site; exact UnknownKey reports with accepted list in declaration order, or complete indifference.",
+         "As C07.", "DESIGN.md §6 C09"),
+ "C10": ("random enum generator x tag manipulation generator; differential against exact-match dispatch",
+         "Every variant name, identifier, case variation, near-miss, non-string and absent tag against random tagged and unit-only enums.",
+         "As C07.", "DESIGN.md §6 C10"),
+ "C11": ("call-logging probe functions in random derive inputs; differential of the logged call multiset and failure reports against the reference interpreter",
+         "from / try_from (by value, by reference) / map / validate / field-level error types at field and container level with payloads failing any subset of stages.",
+         "Probe failure rules are pure functions of the argument known to the interpreter.", "DESIGN.md §6 C11"),
+ "C13": ("exhaustive enumeration of small JSON documents + random documents + number literals; round-trip and kind-consistency oracles, number class decided from the printed form",
+         "All documents with <= 4 nodes over 21 boundary leaves are enumerated; random nested documents and ~1500 number literals sampled.",
+         "Float values of literals are whatever serde_json holds (its text-to-float conversion is not deserr's).", "DESIGN.md §6 C13"),
  "C01": ("proptest-driven generation of (type, payload, source, answer script) with a recording scripted error type; invariant over the recorded history (conservation of report ids)",
          "Samples the four axes the property quantifies over (types incl. random derive inputs, payloads with injected faults, two value sources, Continue/Break answer sequences); every case is judged by an exact, model-free conservation law, so any container that drops, duplicates or invents a report on an exercised path is caught.",
          "Rec keeps every id it is handed; ids are issued per error()/foreign merge() call. Absence is not established: sampled, not exhaustive.", "DESIGN.md §6 C01"),
